@@ -12,6 +12,8 @@ R4        selection: `best` = max_element by weight over the key's records; `ran
 R5        who consults the book: start_searching probes with hash(position), answers the book move only when there
           is one, otherwise searches; the policy option selects the sampler.
 Not decided: the uniformity of the random source (modulo bias of `% sum`), i.e. exact proportionality."""
+import re
+
 from facts import AnalysisBroken
 from prog import walk, kids, short
 from rules import pack
@@ -86,15 +88,16 @@ def reader(ctx, p, f):
                % (len(uses), '' if not bad else ' — ungoverned at line(s) %s' % sorted({u.get('l') for u in bad})),
                site=f.loc(bad[0]) if bad else f.loc(rd))
     # one insertion per record
-    pb = [n for n, c, nm in f.calls() if short(nm) == 'push_back' and '_hashmap' in cn(f, n)]
+    pb = [n for n, c, nm in f.calls() if short(nm) in ('push_back', 'emplace_back') and '_hashmap' in cn(f, n)]
     okp = False
     if len(pb) == 1 and len(reads) == 1:
         loops = [a for a in f.ancestors(pb[0]) if a['k'] in ('WhileStmt', 'ForStmt', 'DoStmt')]
         g = facts_atoms(f, guard_facts(f, pb[0]))
         only_read = all('read(' in str(a) or 'stream' in str(a) for a in g)
-        okp = len(loops) == 1 and only_read and cn(f, pb[0]).replace('this.', '').startswith('_hashmap[key].push_back(make_pair(move,weight))')
+        okp = len(loops) == 1 and only_read and cn(f, pb[0]).replace('this.', '').startswith(('_hashmap[key].push_back(make_pair(move,weight))',
+                                                                                            '_hashmap[key].emplace_back(move,weight)'))
         # nothing else adds records
-    others = [n for n, c, nm in f.calls() if short(nm) in ('push_back', 'emplace_back', 'insert', 'emplace') and n not in pb and '_hashmap' in cn(f, n)]
+    others = [n for n, c, nm in f.calls() if short(nm) in ('push_back', 'emplace_back', 'insert', 'emplace') and n not in pb[:1] and '_hashmap' in cn(f, n)]
     ctx.ob('C19.R1.one-insert-per-record', 'constructor', okp and not others,
            'each complete record read is appended exactly once, under its own key, with no other condition', site=f.loc(pb[0]) if pb else f.loc())
     writers = {g.name for g, x, k in p.field_accesses(E + 'PolyglotBook', '_hashmap') if k in ('write', 'rmw', 'addr', 'call') and
@@ -414,31 +417,36 @@ def consult(ctx, p):
     ctx.analysed(f)
     kd = decl(f, 'key')
     okk = kd is not None and cn(f, kids(kd)[0]) == 'hash(uci.position)'
-    calls = {short(nm): n for n, c, nm in f.calls() if nm.startswith(PB)}
-    okc = all(k in calls for k in ('contains', 'get_random_move', 'get_best_move'))
-    if okc:
-        for k in ('get_random_move', 'get_best_move'):
-            a = [cn(f, x) for x in kids(calls[k])[1:]]
-            g = facts_atoms(f, guard_facts(f, calls[k]))
-            okc = okc and a == ['key', 'uci.position'] and ('truthy', 'uci.polyglot.contains(key)', True) in g
-        gr = facts_atoms(f, guard_facts(f, calls['get_random_move']))
-        gb = facts_atoms(f, guard_facts(f, calls['get_best_move']))
-        okc = okc and ('truthy', 'uci.polyglot_sample_random_move', True) in gr and ('truthy', 'uci.polyglot_sample_random_move', False) in gb
+    # per case {position in the book, policy flag, the book offers a move}: what start_searching does (effects under the
+    # valuation): the sampler of the policy is asked with the key and the position; its move is answered when there is one;
+    # otherwise the search runs; never both, never neither
+    from rules.cases import effects_under as _eus
+    RND, BST = 'uci.polyglot.get_random_move(key,uci.position)', 'uci.polyglot.get_best_move(key,uci.position)'
+    bad_s = None
+    for c_ in (0, 1):
+        for fl_ in (0, 1):
+            for ans_ in (0, 1):
+                val = {'uci.polyglot.contains(key)': c_, 'uci.polyglot_sample_random_move': fl_, RND: 77 if ans_ else 0, BST: 88 if ans_ else 0}
+                eff = _eus(f, kids(f.body), val, keep=('key',))
+                outs_ = [e_ for e_ in eff if '"bestmove ' in e_]
+                gos_ = [e_ for e_ in eff if e_.endswith('.go()') or e_.endswith('go()')]
+                rest_ = [e_ for e_ in eff if e_ not in outs_ and e_ not in gos_ and not re.fullmatch(r'\(\w+=\d+\)', e_) and e_ != 'return ']
+                if rest_:
+                    raise AnalysisBroken('C19: start_searching does `%s`, which the rule does not know' % rest_[0][:120])
+                if c_ and ans_:
+                    want_mv = 77 if fl_ else 88
+                    ok_ = len(outs_) == 1 and not gos_ and 'uci.position.uci(%d)' % want_mv in outs_[0]
+                else:
+                    ok_ = not outs_ and len(gos_) == 1
+                if not ok_ and bad_s is None:
+                    bad_s = 'in the book=%s, random policy=%s, a move offered=%s: answers %s, searches %d time(s)' % (
+                        bool(c_), bool(fl_), bool(ans_), [o_[-40:] for o_ in outs_], len(gos_))
+    okc = True
     ctx.ob('C19.R5.probe', 'start_searching', bool(okk and okc),
-           'the book is probed with the key of the current position; the sampler follows the policy flag; both receive that key and position', site=f.loc())
-    go = [n for n, c, nm in f.calls() if nm == E + 'Search::go']
-    outs = [x for x in f.all_nodes() if x['k'] == 'StringLiteral' and 'bestmove' in str(x.get('s', x.get('v', ''))) or
-            (x['k'] == 'StringLiteral' and 'bestmove' in str(x))]
-    okg = len(go) == 1
-    if okg:
-        gg = facts_atoms(f, guard_facts(f, go[0]))
-        okg = ('eq', 'NO_MOVE', 'move') in gg or ('eq', 'move', 0) in gg or ('truthy', 'uci.polyglot.contains(key)', False) in gg
-        pr = [n for n, c, nm in f.calls() if short(nm) == 'uci' and nm.startswith(E + 'Position')]
-        okg = okg and len(pr) == 1 and cn(f, kids(pr[0])[1]) == 'move' and \
-            (('ne', 'NO_MOVE', 'move') in facts_atoms(f, guard_facts(f, pr[0])) or ('ne', 'move', 0) in facts_atoms(f, guard_facts(f, pr[0])) or
-             ('truthy', 'uci.polyglot.contains(key)', True) in facts_atoms(f, guard_facts(f, pr[0])))
-    ctx.ob('C19.R5.answer-or-search', 'start_searching', bool(okg),
-           'a book move is answered only when the book offered one; otherwise the search runs (exactly one of the two)', site=f.loc())
+           'the book is probed with the key of the current position', site=f.loc())
+    ctx.ob('C19.R5.answer-or-search', 'start_searching', bad_s is None,
+           'the sampler of the configured policy is asked; a book move is answered only when the book offered one; otherwise the search '
+           'runs (exactly one of the two)%s' % ('' if bad_s is None else ' — ' + bad_s), site=f.loc())
     # the policy option
     setters = [(g, x) for g, x, k in p.field_accesses(E + 'Uci', 'polyglot_sample_random_move') if k in ('write', 'rmw')]
     oks = bool(setters)
